@@ -255,7 +255,7 @@ func init() {
 					req := fasthttp.AcquireRequest()
 					resp := fasthttp.AcquireResponse()
 					req.SetRequestURI("http://x" + p)
-					if err := hc.DoTimeout(req, resp, 2*time.Second); err != nil {
+					if err := hc.DoTimeout(req, resp, 15*time.Second); err != nil {
 						errs = append(errs, err.Error())
 					}
 					fasthttp.ReleaseRequest(req)
